@@ -18,6 +18,8 @@ MACRO_WITNESS = '''
 #include <librfn/constexpr.h>
 int w_const_pop(uint64_t c) { return const_pop(c); }
 int w_const_lssb(uint64_t c) { return const_lssb(c); }
+/* the VALUE of the expression, before any conversion to a narrower result type can repair it */
+int w_const_lssb_negative(uint64_t c) { return const_lssb(c) < 0; }
 int w_const_pop32(uint32_t c) { return const_pop(c); }
 int w_const_lssb32(uint32_t c) { return const_lssb(c); }
 int w_const_pop_s32(int32_t c) { return const_pop((uint32_t) c); }
@@ -218,6 +220,8 @@ def run(chk):
         decide(chk, "B2.const_pop", "const_pop(uint64_t run-time value)", w, "w_const_pop", 64, spec_popcount, what="const_pop")
         decide(chk, "B2.const_lssb", "const_lssb(uint64_t run-time value)", w, "w_const_lssb", 64,
                lambda bv, x, n: spec_ctz(bv, x, n, zero_value=-1), what="const_lssb")
+        decide(chk, "B2.const_lssb", "const_lssb(c) < 0 exactly for c == 0 (the VALUE is -1, not 2^64-1 in an unsigned type)", w,
+               "w_const_lssb_negative", 64, lambda bv, x, n: bv.zext([bv.eq(x, bv.const(0, len(x)))], n), what="const_lssb(c) < 0")
         decide(chk, "B2.const_pop", "const_pop(uint32_t run-time value)", w, "w_const_pop32", 32, spec_popcount, what="const_pop")
         decide(chk, "B2.const_lssb", "const_lssb(uint32_t run-time value)", w, "w_const_lssb32", 32,
                lambda bv, x, n: spec_ctz(bv, x, n, zero_value=-1), what="const_lssb")
